@@ -93,42 +93,56 @@ def stoi (v : List UInt8) : Option Int :=
 /-- `host.port = <int>`: implicit conversion `int` → `uint16_t` (url.cpp:218) -/
 def toU16 (i : Int) : Nat := (i % 65536).toNat
 
-/-- `StringToUrlHost(str, host)` on a default-constructed `host`: the return value and the object as left behind (fields
-assigned before a failing `UrlDecode` / `std::stoi` keep their new values) -/
-def parseHost (s : List UInt8) : Bool × Host :=
-  let h : Host := {}
-  -- user[:password]@
-  let part1 : Option (Host × Nat) :=
-    match find 64 s with
-    | none => some (h, 0)
-    | some a =>
-      let userOnly : Option (Host × Nat) := (decodeOpt (s.take a)).map (fun u => ({ h with user := u, password := [] }, a + 1))
-      match find 58 s with
-      | none => userOnly
-      | some c =>
-        if c > a then userOnly
-        else match decodeOpt (s.take c) with
-          | none => none
-          | some u =>
-            match decodeOpt ((s.drop (c + 1)).take (a - c - 1)) with
-            | none => some ({ h with user := u }, s.length + 1)      -- marker: failed after `user` was assigned
-            | some p => some ({ h with user := u, password := p }, a + 1)
-  match part1 with
-  | none => (false, h)
-  | some (h1, start) =>
-    if start > s.length then (false, h1) else
-    match findFrom 58 s start with
-    | none =>
-      match decodeOpt (s.drop start) with
-      | none => (false, h1)
-      | some hs => (true, { h1 with host := hs, port := 0 })
+/-- first half of `StringToUrlHost(str, host)` on an object that holds `old`: `user[:password]@`. `none` = `UrlDecode` threw before
+anything was assigned; otherwise the object so far and `host_start_pose` (`s.length + 1` marks: threw after `user` was assigned).
+`clears` = the repaired code (patch C19-09): without an '@' the user and password of a re-used object are cleared; the code as found
+left them as they were. -/
+def parseHostUserW (clears : Bool) (old : Host) (s : List UInt8) : Option (Host × Nat) :=
+  match find 64 s with
+  | none => some (if clears then { old with user := [], password := [] } else old, 0)
+  | some a =>
+    let userOnly : Option (Host × Nat) := (decodeOpt (s.take a)).map (fun u => ({ old with user := u, password := [] }, a + 1))
+    match find 58 s with
+    | none => userOnly
     | some c =>
-      match decodeOpt ((s.drop start).take (c - start)) with
-      | none => (false, h1)
-      | some hs =>
-        match stoi (s.drop (c + 1)) with
-        | none => (false, { h1 with host := hs })
-        | some i => (true, { h1 with host := hs, port := toU16 i })
+      if c > a then userOnly
+      else match decodeOpt (s.take c) with
+        | none => none
+        | some u =>
+          match decodeOpt ((s.drop (c + 1)).take (a - c - 1)) with
+          | none => some ({ old with user := u }, s.length + 1)      -- marker: failed after `user` was assigned
+          | some p => some ({ old with user := u, password := p }, a + 1)
+
+/-- second half: `host[:port]` from `host_start_pose` on -/
+def parseHostTail (h1 : Host) (s : List UInt8) (start : Nat) : Bool × Host :=
+  if start > s.length then (false, h1) else
+  match findFrom 58 s start with
+  | none =>
+    match decodeOpt (s.drop start) with
+    | none => (false, h1)
+    | some hs => (true, { h1 with host := hs, port := 0 })
+  | some c =>
+    match decodeOpt ((s.drop start).take (c - start)) with
+    | none => (false, h1)
+    | some hs =>
+      match stoi (s.drop (c + 1)) with
+      | none => (false, { h1 with host := hs })
+      | some i => (true, { h1 with host := hs, port := toU16 i })
+
+/-- `StringToUrlHost(str, host)` on an object holding `old`: the return value and the object as left behind (fields assigned before a
+failing `UrlDecode` / `std::stoi` keep their new values, the others their old ones) -/
+def parseHostIntoW (clears : Bool) (old : Host) (s : List UInt8) : Bool × Host :=
+  match parseHostUserW clears old s with
+  | none => (false, old)
+  | some (h1, start) => parseHostTail h1 s start
+
+/-- the code after patch C19-09 / the code as found -/
+def parseHostInto (old : Host) (s : List UInt8) : Bool × Host := parseHostIntoW true old s
+def parseHostIntoOrig (old : Host) (s : List UInt8) : Bool × Host := parseHostIntoW false old s
+
+/-- on a default-constructed object (both variants agree there) -/
+def parseHostUser (s : List UInt8) : Option (Host × Nat) := parseHostUserW true {} s
+def parseHost (s : List UInt8) : Bool × Host := parseHostInto {} s
 
 /-- decimal digits of a natural (`operator<<(uint16_t)`) -/
 def decimal (n : Nat) : List UInt8 :=
@@ -138,5 +152,12 @@ def decimal (n : Nat) : List UInt8 :=
 def hostToString (h : Host) : List UInt8 :=
   (if h.user.isEmpty then [] else h.user ++ (if h.password.isEmpty then [] else 58 :: h.password) ++ [64])
     ++ h.host ++ (if h.port = 0 then [] else 58 :: decimal h.port)
+
+/-- a token `UrlHostToString` can print so that `StringToUrlHost` reads it back: none of `% @ :` (nothing is encoded when printing) -/
+def tokOk (b : List UInt8) : Bool := b.all fun c => c != 37 && c != 64 && c != 58
+
+/-- well-formed host value: printable tokens, a password only with a user, the port a `uint16_t` -/
+def Host.wf (h : Host) : Bool :=
+  tokOk h.user && tokOk h.password && tokOk h.host && (!h.user.isEmpty || h.password.isEmpty) && decide (h.port < 65536)
 
 end Tbox.C19.Url
